@@ -154,7 +154,7 @@ def main():
     for c in payload['cases']:
         try:
             hint = U.hint_to_python(c['hint'])
-            conf = confs[bool(c['is_random'])]
+            conf = confs[bool(c['is_random'])] if not c.get('conf') else U.make_conf(bool(c['is_random']), 'O1', c['conf'])
             hs = sanify_hint_root_statement(call_curr=BEARTYPE_CALL_EXTERNAL_META, hint=hint, conf=conf,
                                             exception_prefix='')
             if hs is HINT_SANE_IGNORABLE:
